@@ -10,6 +10,11 @@ void *vsim_peek_userptr(const ssl_t *ssl) { return ssl ? ssl->userPtr : NULL; }
 size_t vsim_sizeof_ssl(void) { return sizeof(ssl_t); }
 int vsim_peek_outlen(const ssl_t *ssl) { return ssl ? ssl->outlen : 0; }
 int vsim_peek_inlen(const ssl_t *ssl) { return ssl ? ssl->inlen : 0; }
+#ifdef USE_TLS_1_3
+int vsim_peek_tls13_group(const ssl_t *ssl) { return ssl ? ssl->tls13NegotiatedGroup : 0; }
+#else
+int vsim_peek_tls13_group(const ssl_t *ssl) { (void) ssl; return 0; }
+#endif
 int vsim_peek_insize(const ssl_t *ssl) { return ssl ? ssl->insize : 0; }
 int vsim_peek_outsize(const ssl_t *ssl) { return ssl ? ssl->outsize : 0; }
 int vsim_peek_err(const ssl_t *ssl) { return ssl ? ssl->err : 0; }
